@@ -269,7 +269,19 @@ func selectDeflate(extensions []websocketExtension, mode CompressionMode) (*comp
 
 func acceptDeflate(ext websocketExtension, mode CompressionMode) (*compressionOptions, bool) {
 	copts := mode.opts()
+	seen := make(map[string]struct{}, len(ext.params))
 	for _, p := range ext.params {
+		// An offer with several parameters of the same name is invalid and
+		// must be declined. See https://tools.ietf.org/html/rfc7692#section-7
+		name := p
+		if i := strings.IndexByte(p, '='); i >= 0 {
+			name = p[:i]
+		}
+		if _, ok := seen[name]; ok {
+			return nil, false
+		}
+		seen[name] = struct{}{}
+
 		switch p {
 		case "client_no_context_takeover":
 			copts.clientNoContextTakeover = true
@@ -283,12 +295,29 @@ func acceptDeflate(ext websocketExtension, mode CompressionMode) (*compressionOp
 		}
 
 		if strings.HasPrefix(p, "client_max_window_bits=") {
+			if !validWindowBits(strings.TrimPrefix(p, "client_max_window_bits=")) {
+				return nil, false
+			}
 			// We can't adjust the deflate window, but decoding with a larger window is acceptable.
 			continue
 		}
 		return nil, false
 	}
 	return copts, true
+}
+
+// validWindowBits reports whether v is a valid value of a max_window_bits
+// parameter: a decimal integer between 8 and 15 without leading zeros,
+// optionally quoted. See https://tools.ietf.org/html/rfc7692#section-7.1.2
+func validWindowBits(v string) bool {
+	if len(v) >= 2 && v[0] == '"' && v[len(v)-1] == '"' {
+		v = v[1 : len(v)-1]
+	}
+	switch v {
+	case "8", "9", "10", "11", "12", "13", "14", "15":
+		return true
+	}
+	return false
 }
 
 func headerContainsTokenIgnoreCase(h http.Header, key, token string) bool {
